@@ -524,6 +524,8 @@ pub fn run(tier: Tier) {
     let mut per_family: BTreeMap<String, usize> = BTreeMap::new();
     let mut per_kind: BTreeMap<String, usize> = BTreeMap::new();
     let mut refusals: BTreeMap<String, usize> = BTreeMap::new();
+    let mut distinct: std::collections::HashSet<[u8; 16]> = Default::default();
+    let mut samples: Vec<serde_json::Value> = vec![];
     for (bin, text, success) in &outputs {
         if !success || !text.lines().any(|l| l == "DONE") {
             eprintln!("MACHINERY: generated binary g{bin:02} did not finish");
@@ -540,7 +542,13 @@ pub fn run(tier: Tier) {
             *per_family.entry(c.family.clone()).or_default() += 1;
             *per_kind.entry(c.kind.name().to_string()).or_default() += 1;
             match parts[2] {
-                "OK" => ok += 1,
+                "OK" => {
+                    ok += 1;
+                    distinct.insert(fingerprint(parts.get(3).unwrap_or(&"").as_bytes()));
+                    if samples.len() < 10 && ok % 577 == 1 {
+                        samples.push(json!({"macro": c.kind.name(), "source": c.src, "parameters": format!("{:?}", c.params), "built": parts.get(3).unwrap_or(&"")}));
+                    }
+                }
                 "BOTH-REFUSE" => {
                     both_refuse += 1;
                     *refusals.entry(format!("{}/{}", c.family, c.class.split('/').take(2).collect::<Vec<_>>().join("/"))).or_default() += 1;
@@ -562,6 +570,9 @@ pub fn run(tier: Tier) {
     let cov = json!({
         "cases": cases.len(),
         "inputs_enumerated": cases.len(),
+        "evaluations": seen.len(),
+        "distinct_nontrivial": distinct.len(),
+        "samples": samples,
         "equal": ok,
         "refused_by_both_paths": both_refuse,
         "refused_by_both_paths_per_class": refusals,
